@@ -121,7 +121,9 @@ pub fn prelude(types: &[TypeDeclaration], k: usize, pat: Pat, nparams: usize) ->
             1 => {
                 // rotate through object shapes: Box, Pair, nullary, list
                 let x = b.lit(2000 + i as i64);
-                match i % 4 {
+                // (position 3 and position 0 must be able to hold real block pointers: AArch64 and
+                // x86-64 borrow exactly these variables' first temporaries as extra scratch)
+                match (i + 1) % 4 {
                     0 => {
                         b.let_(types, "Box", "B", &[x]);
                     }
@@ -445,6 +447,60 @@ pub fn all_families(cfg: &FamCfg, sink: &mut Sink) {
                         };
                         case(format!("letswitch/R{n}/k{k}/{}/shared{shared}", pat.name()), t, stmt, vec![], 2, vec![11, 22], wp)
                     });
+                }
+            }
+        }
+    }
+
+    // ---- SWITCH in the full environment: the scrutinee is destructed while k other variables are
+    // live (so its block pointers cross the register/spill boundary), unique and shared, with
+    // integer and object fields, with and without integer parameters in front ---------------------
+    for k in env_sizes(cfg.thorough, cfg.cap.saturating_sub(3)) {
+        for pat in [Pat::Ints, Pat::Objs, Pat::Alt] {
+            for nparams in [2usize, 0] {
+                if nparams > k {
+                    continue;
+                }
+                let shapes: Vec<usize> = if cfg.thorough { (0..=9).collect() } else { vec![0, 1, 3, 4, 6, 8, 9] };
+                for n in shapes {
+                    // shape 9 = Mix5 (object fields across two blocks)
+                    let nfields = if n == 9 { 5 } else { n };
+                    if k + nfields + 2 > cfg.cap {
+                        continue;
+                    }
+                    for shared in [false, true] {
+                        sink.offer(|| {
+                            let mut b = prelude(t, k, pat, nparams);
+                            let o = if n == 9 {
+                                let a = b.lit(1);
+                                let x = b.lit(2);
+                                let p = b.let_(t, "Box", "B", &[x]);
+                                let c = b.lit(3);
+                                let y = b.lit(4);
+                                let q = b.let_(t, "Box", "B", &[y]);
+                                let e = b.lit(5);
+                                b.let_(t, "Mix5", "M5", &[a, p, c, q, e])
+                            } else {
+                                let mut fields = Vec::new();
+                                for f in 0..n {
+                                    fields.push(b.lit(500 + f as i64));
+                                }
+                                b.let_(t, &format!("R{n}"), &format!("K{n}"), &fields)
+                            };
+                            let scrut = if shared {
+                                let mut order = b.ids();
+                                order.push(o);
+                                let ids = b.arrange(&order);
+                                *ids.last().unwrap()
+                            } else {
+                                o
+                            };
+                            // switch right here, in the full environment
+                            let stmt = b.switch(t, scrut, |_, sub, _| epilogue(t, sub, wp));
+                            let args: Vec<i64> = (0..nparams).map(|i| 11 * (i as i64 + 1)).collect();
+                            case(format!("switchfull/shape{n}/k{k}/{}/p{nparams}/shared{shared}", pat.name()), t, stmt, vec![], nparams, args, wp)
+                        });
+                    }
                 }
             }
         }
